@@ -238,6 +238,49 @@ func runC15(tier string, seed int64) int {
 		res.nontrivial["binding/"+n] = true
 		res.violations = append(res.violations, vs...)
 	}
+	// ---- 6. what the package hands out is the caller's own: a caller that edits its copy in place (as a deployment
+	// tool adding groups does) must not change what the next caller gets. Done last: it scribbles over one result ----
+	for gi, get := range []func() ([]contracts.Contract, error){contracts.GetFS, contracts.GetMain} {
+		which := []string{"GetFS", "GetMain"}[gi]
+		a, err := get()
+		if err != nil {
+			hpanic("C15: %s: %v", which, err)
+		}
+		var before []string
+		for i := range a {
+			nb, _ := a[i].NEF.Bytes()
+			before = append(before, fmt.Sprintf("%x|%s", nb, manifestJSON(&a[i].Manifest)))
+		}
+		for i := range a {
+			for j := range a[i].NEF.Script {
+				a[i].NEF.Script[j] ^= 0xff
+			}
+			for j := range a[i].Manifest.ABI.Methods {
+				a[i].Manifest.ABI.Methods[j].Safe = !a[i].Manifest.ABI.Methods[j].Safe
+				a[i].Manifest.ABI.Methods[j].Name = "scribbled"
+			}
+			for j := range a[i].Manifest.ABI.Events {
+				a[i].Manifest.ABI.Events[j].Name = "scribbled"
+			}
+			for j := range a[i].Manifest.Permissions {
+				a[i].Manifest.Permissions[j].Methods.Value = nil
+			}
+			a[i].Manifest.Name = "scribbled"
+		}
+		b, err := get()
+		if err != nil {
+			hpanic("C15: %s (second call): %v", which, err)
+		}
+		for i := range b {
+			res.evals++
+			res.nontrivial["getter/"+which+"/"+fmt.Sprint(i)] = true
+			nb, _ := b[i].NEF.Bytes()
+			if i >= len(before) || fmt.Sprintf("%x|%s", nb, manifestJSON(&b[i].Manifest)) != before[i] {
+				add("getter-shares-data", fmt.Sprintf("contracts.%s(): after a caller edited the result of one call in place, the next call returns contract #%d changed", which, i), map[string]any{"getter": which})
+				break
+			}
+		}
+	}
 	return finishC15(tier, seed, res, t0)
 }
 
